@@ -221,7 +221,10 @@ func (c *Ctx) ruleW0(rule string) {
 	allowed := map[string][]string{
 		"File." + m.Data: {"text.NewFile"}, "File." + m.Len: {"text.NewFile"},
 		"File." + m.Offset: {"text.NewFile", "(*text.File).SetOffset"}, "File." + m.Lines: {setLines},
-		"Reader." + m.ReaderFile: {"text.NewReader"}, "Reader." + m.ReaderCache: {"text.NewReader"},
+		"Reader." + m.ReaderFile: {"text.NewReader"},
+	}
+	if m.ReaderCache != "" {
+		allowed["Reader."+m.ReaderCache] = []string{"text.NewReader"}
 	}
 	textPkg := c.P.Lib["text"]
 	seen := map[string]int{}
@@ -628,14 +631,14 @@ func (c *Ctx) ruleR09c(rule string) {
 		for _, in := range b.Instrs {
 			switch x := in.(type) {
 			case *ssa.Lookup:
-				if _, f, ok := fieldLoad(x.X); ok && f == c.model().ReaderCache {
+				if isPatternCache(x.X.Type()) {
 					nKey++
 					if x.Index != exprParam {
 						okKey = false
 					}
 				}
 			case *ssa.MapUpdate:
-				if _, f, ok := fieldLoad(x.Map); ok && f == c.model().ReaderCache {
+				if isPatternCache(x.Map.Type()) {
 					nKey++
 					if x.Key != exprParam || ssax.Strip(x.Value) != compiled {
 						okKey = false
@@ -882,4 +885,17 @@ func (c *Ctx) ruleR09e(rule string) {
 	default:
 		c.R.Hold(rule, name+" boundary test", "rejects exactly for A-Z a-z 0-9 _ (256 byte values folded)")
 	}
+}
+
+// isPatternCache: a map from expression strings to compiled patterns, wherever it lives.
+func isPatternCache(t types.Type) bool {
+	m, ok := t.Underlying().(*types.Map)
+	if !ok {
+		return false
+	}
+	kb, ok := m.Key().Underlying().(*types.Basic)
+	if !ok || kb.Info()&types.IsString == 0 {
+		return false
+	}
+	return ssax.PtrNamedIs(m.Elem(), "regexp", "Regexp")
 }
